@@ -25,7 +25,7 @@ ASSUMPTIONS = [
     'for authenticated services only the ADD_ONION line and the parsed client tokens are checked (the HS_DESC wait needs a real RSA key)',
 ]
 BOUNDS = {'quick': {'versions': [2, 3], 'key': 'none / DISCARD / bare / prefixed / wrong-prefix, blob of <=2 chars chosen from {a 7 : = + / CR LF}',
-                    'flags': 'detach x single-hop', 'auth': 'none, basic with 0..2 clients (with/without token)', 'ports': '1..2 mappings of 4 forms (1 with a supplied key), public port 1 or 65535'},
+                    'flags': 'detach x single-hop', 'auth': 'none, basic with 0..2 clients (with/without token; names of 1, 2 and 3-5 characters)', 'ports': '1..2 mappings of 4 forms (1 with a supplied key), public port 1 or 65535'},
           'thorough': {'key': 'blob of <=3 chars'}}
 OUTSIDE = ['key blobs containing a space (sent unchanged, as the statement requires)', 'stealth auth (refused by txtorcon)', 'more than 2 port mappings / 2 clients']
 
@@ -60,7 +60,10 @@ def _blob_ok(c):
     return (48 <= o <= 57) or (97 <= o <= 122) or c == ':' or c == '=' or c == '+' or c == '/' or c == '\r' or c == '\n'
 
 
-def _product(version, keykind, blob, detach, single_hop, nclients, tok1, nports, form1, form2, pa, pb, same_virt=False, via_tor=False):
+CLIENT_NAMES = [('alice', 'bob'), ('al', 'bo'), ('a', 'b')]     # bare names of 5/3, 2 and 1 characters
+
+
+def _product(version, keykind, blob, detach, single_hop, nclients, tok1, nports, form1, form2, pa, pb, same_virt=False, via_tor=False, cn=0):
     with api.no_tracing():
         p, t, tor = make_world(dict(INITIAL), True, {})
         p._set_valid_events('CONF_CHANGED HS_DESC CIRC STREAM')
@@ -99,8 +102,9 @@ def _product(version, keykind, blob, detach, single_hop, nclients, tok1, nports,
         m, wp = mapping(f, a, b)
         ports.append(m)
         want_ports.append(wp)
-    clients = [('alice', 'dG9rZW4x') if tok1 else 'alice', 'bob'][:max(nclients, 0)]
-    want_clients = [('alice:dG9rZW4x' if tok1 else 'alice'), 'bob'][:max(nclients, 0)]
+    n1, n2 = CLIENT_NAMES[cn]
+    clients = [(n1, 'dG9rZW4x') if tok1 else n1, n2][:max(nclients, 0)]
+    want_clients = [(n1 + ':dG9rZW4x' if tok1 else n1), n2][:max(nclients, 0)]
     want_flags = set()
     if detach:
         want_flags.add('Detach')
@@ -192,11 +196,11 @@ def _product(version, keykind, blob, detach, single_hop, nclients, tok1, nports,
         return R('supplied-key-not-kept', '%r vs %r', pk, want_key)
     if nclients >= 0:
         names = sorted(svc.client_names())
-        if names != sorted(['alice', 'bob'][:nclients]):
+        if names != sorted([n1, n2][:nclients]):
             return R('clients-of-service-wrong', '%r', names)
         for nm in names:
             tokn = svc.get_client(nm).auth_token
-            wantt = 'dG9rZW4x' if (nm == 'alice' and tok1) else 'dG9yLXRva2Vu'
+            wantt = 'dG9rZW4x' if (nm == n1 and tok1) else 'dG9yLXRva2Vu'
             if tokn != wantt:
                 return R('client-token-wrong', '%s: %r want %r', nm, tokn, wantt)
     else:
@@ -256,3 +260,13 @@ def c14_product(version: int, keykind: int, nclients: int, nb: int, b1: int, b2:
     with api.no_tracing():     # every choice is concrete by now
         return _product(version, keykind, blob, True if detach else False, True if single_hop else False, nclients, True if tok1 else False,
                         nports, form1, form2, pa, 80, True if same_virt else False, True if via_tor else False)
+
+
+@cond(quick=dict(parts=[{'version': v, 'nclients': c} for v in (2, 3) for c in (1, 2)], budget=150))
+def c14_client_names(version: int, nclients: int, cn: int, tok1: bool, keykind: int, detach: bool, single_hop: bool) -> str:
+    """the client list with bare names of 1, 2 and 3-5 characters (a name is never split into name:token)"""
+    cn = api.pick(cn, 0, len(CLIENT_NAMES) - 1)
+    keykind = api.pick(keykind, 0, 1)
+    with api.no_tracing():
+        return _product(version, keykind, '', True if detach else False, True if single_hop else False, nclients,
+                        True if tok1 else False, 1, 1, 0, 65535, 80, False, False, cn)
